@@ -86,7 +86,7 @@ PROPERTIES = {
     },
     "C07": {
         "runs": {
-            "quick": [H("HarnessC07a", b(N=3, K=1, MODE=1)), H("HarnessC07a", b(N=3, K=2, MODE=3)), H("HarnessC07a", b(N=3, K=2, MODE=7)),
+            "quick": [H("HarnessC07a", b(N=3, K=1, MODE=1)), H("HarnessC07a", b(N=3, K=2, MODE=3)), H("HarnessC07a", b(N=3, K=2, MODE=7)), H("HarnessC07a", b(N=4, K=3, MODE=8)), H("HarnessC07a", b(N=3, K=4, MODE=9)),
                       # directed: concrete 33-entry tree of height 5 (ruler layers), one symbolic modification (any key, any layer <= 5)
                       H("HarnessC07a", b(N=33, K=1, MODE=1, LRULER=1, CONCRETEKEYS=1, Lmax=5), sample_every=20, max_steps=20000000)],
             "thorough": [H("HarnessC07a", b(N=3, K=2, MODE=1), sample_every=500), H("HarnessC07a", b(N=4, K=1, MODE=1), sample_every=500), H("HarnessC07a", b(N=3, K=3, MODE=3), sample_every=500), H("HarnessC07a", b(N=3, K=3, MODE=7), sample_every=500), H("HarnessC07a", b(N=4, K=2, MODE=7), sample_every=500)],
@@ -97,7 +97,7 @@ PROPERTIES = {
     },
     "C15": {
         "runs": {
-            "quick": [H("HarnessC07a", b(N=3, K=1, MODE=1)), H("HarnessC07a", b(N=3, K=2, MODE=3)), H("HarnessC07a", b(N=3, K=2, MODE=7)),
+            "quick": [H("HarnessC07a", b(N=3, K=1, MODE=1)), H("HarnessC07a", b(N=3, K=2, MODE=3)), H("HarnessC07a", b(N=3, K=2, MODE=7)), H("HarnessC07a", b(N=4, K=3, MODE=8)), H("HarnessC07a", b(N=3, K=4, MODE=9)),
                       # directed: concrete 33-entry tree of height 5 (ruler layers), one symbolic modification (any key, any layer <= 5)
                       H("HarnessC07a", b(N=33, K=1, MODE=1, LRULER=1, CONCRETEKEYS=1, Lmax=5), sample_every=20, max_steps=20000000)],
             "thorough": [H("HarnessC07a", b(N=3, K=2, MODE=1), sample_every=500), H("HarnessC07a", b(N=4, K=1, MODE=1), sample_every=500), H("HarnessC07a", b(N=3, K=3, MODE=3), sample_every=500), H("HarnessC07a", b(N=3, K=3, MODE=7), sample_every=500), H("HarnessC07a", b(N=4, K=2, MODE=7), sample_every=500)],
@@ -108,10 +108,12 @@ PROPERTIES = {
     },
     "C08": {
         "runs": {
-            "quick": [H("HarnessC08a", b(K=4, CACHE=0), sample_every=200), H("HarnessC08a", b(K=4, CACHE=2), sample_every=200), H("HarnessC08a", b(K=2, CACHE=1), sample_every=200), H("HarnessC08a", b(N0=3, K=0, CACHE=1), sample_every=200)],
+            "quick": [H("HarnessC08a", b(K=4, CACHE=0), sample_every=200), H("HarnessC08a", b(K=4, CACHE=2), sample_every=200), H("HarnessC08a", b(K=2, CACHE=1), sample_every=200), H("HarnessC08a", b(N0=3, K=0, CACHE=1), sample_every=200)] +
+                     # v1marshaler: equal contents give equal bytes/names whatever route built the nodes (the harness marshaler, like JSON, tells nil slices from empty ones)
+                     [H("HarnessC04b", b(N=5, K=1, NOPS=2, HREQ=2, LPAT=p, FMT=1), sample_every=10) for p in (18, 6, 19, 63)] + [H("HarnessC04a", b(K=4, NOPS=3, FMT=1), sample_every=200)],
             "thorough": [H("HarnessC08a", b(K=4, CACHE=0), sample_every=200), H("HarnessC08a", b(K=3, CACHE=1))],
         },
-        "must_reach": ["C08.name-is-hash-of-bytes", "C08.bytes-are-canonical-encoding", "C08.reencode-same-root", "C08.child-names-are-names-of-written-nodes", "C08.root-name-is-name-of-a-written-node", "C08.same-root-name-same-contents", "C08.unmodified-load-persists-under-the-same-name"],
+        "must_reach": ["C08.name-is-hash-of-bytes", "C08.bytes-are-canonical-encoding", "C08.reencode-same-root", "C08.child-names-are-names-of-written-nodes", "C08.root-name-is-name-of-a-written-node", "C08.same-root-name-same-contents", "C08.unmodified-load-persists-under-the-same-name", "C08.equal-contents-equal-root-name"],
         "bounds_statement": "every Store call of every history of <= K operations (incl. persist+reload) and of the final persist",
         "assumptions": COMMON_ASSUMPTIONS,
     },
@@ -122,17 +124,19 @@ PROPERTIES = {
                      # scenario-directed: fixed operation sequences through a shared cache (0 insert, 1 delete, 2 persist+reload), keys/values/layers symbolic
                      [H("HarnessC04a", {**b(K=k, NOPS=3, CACHE=1), "SEQ.h": q}, sample_every=200) for k, q in ((6, 21020), (5, 2102), (7, 201020))] + [H("HarnessC04b", b(N=17, K=1, NOPS=2, Lmax=4, LRULER=1, CONCRETEKEYS=1), sample_every=10, max_steps=30000000)] +
                      # versions persisted after a failed and retried operation (the fault-injecting harness of C12)
-                     [H("HarnessC12a", b(N=3, PRE=0, F=3, OPMASK=3, NOPROBE=1), sample_every=100)],
+                     [H("HarnessC12a", b(N=3, PRE=0, F=3, OPMASK=3, NOPROBE=1), sample_every=100),
+                      # height-3 ruler tree: a delete of the top key merges two levels down, every load position faulted
+                      H("HarnessC12a", b(N=7, PRE=0, F=7, OPMASK=3, NOPROBE=1, CONCRETEKEYS=1, LRULER=1), sample_every=50)],
             "thorough": [H("HarnessC04b", b(N=5, K=1, NOPS=2, HREQ=2), sample_every=500), H("HarnessC04a", b(K=4, NOPS=3), sample_every=200), H("HarnessC04a", b(K=3, NOPS=3, BF=3)), H("HarnessC04a", b(K=5, NOPS=2), sample_every=2000),
-                         H("HarnessC04b", b(N=33, K=1, NOPS=2, Lmax=5, LRULER=1, CONCRETEKEYS=1), sample_every=20, max_steps=60000000), H("HarnessC12a", b(N=3, PRE=0, F=5, OPMASK=3, NOPROBE=1), sample_every=500)],
+                         H("HarnessC04b", b(N=33, K=1, NOPS=2, Lmax=5, LRULER=1, CONCRETEKEYS=1), sample_every=20, max_steps=60000000), H("HarnessC12a", b(N=3, PRE=0, F=5, OPMASK=3, NOPROBE=1), sample_every=500), H("HarnessC12a", b(N=15, PRE=0, F=12, OPMASK=3, NOPROBE=1, CONCRETEKEYS=1, LRULER=1, Lmax=3), sample_every=200)],
         },
-        "must_reach": ["C09.size-after-failed-operation", "C09.layers", "C09.ranges", "C09.no-empty-node", "C09.size"],
+        "must_reach": ["C09.size-after-failed-operation", "C09.size-after-operation-under-fault", "C09.layers", "C09.ranges", "C09.no-empty-node", "C09.size"],
         "bounds_statement": "persisted version after every history of <= K operations; every reachable node decoded by an independent reader",
         "assumptions": COMMON_ASSUMPTIONS,
     },
     "C10": {
         "runs": {
-            "quick": [H("HarnessC10a", b(N=3, S=2, MODE=m)) for m in (0, 1, 2, 3, 4)] + [H("HarnessC10b", b(N=3, MODE=m)) for m in (0, 1, 2, 3)] +
+            "quick": [H("HarnessC10a", b(N=3, S=2, MODE=m)) for m in (0, 1, 3)] + [H("HarnessC10a", b(N=2, S=3, MODE=m)) for m in (2, 4)] + [H("HarnessC10b", b(N=3, MODE=m)) for m in (0, 1, 2, 3)] +
                      # height-2 shapes with adjacent same-layer keys (nil links inside interior nodes)
                      [H(h, b(N=5, S=3, MODE=m, LPAT=p), sample_every=5) for h in ("HarnessC10a", "HarnessC10b") for m in (0, 1) for p in (66, 58, 147)] + [H("HarnessC10a", b(N=17, S=3, MODE=1, Lmax=4, LRULER=1, CONCRETEKEYS=1), sample_every=20, max_steps=30000000)],
             "thorough": [H("HarnessC10a", b(N=5, S=3, MODE=m), sample_every=300) for m in (0, 1)] + [H("HarnessC10a", b(N=3, S=5, MODE=0), sample_every=300)] +
@@ -148,7 +152,8 @@ PROPERTIES = {
         "runs": {
             "quick": [H("HarnessC12a", b(N=3, PRE=0, F=3)),
                       # directed: concrete height-2 base, one earlier insert on the same handle (dirty in-memory path), then insert/delete under faults
-                      H("HarnessC12a", b(N=5, PRE=1, F=4, OPMASK=3, NOPROBE=1, CONCRETEKEYS=1, LRULER=1, **{"SEQ.pre": 0}), sample_every=500)],
+                      H("HarnessC12a", b(N=5, PRE=1, F=4, OPMASK=3, NOPROBE=1, CONCRETEKEYS=1, LRULER=1, **{"SEQ.pre": 0}), sample_every=500),
+                      H("HarnessC12a", b(N=7, PRE=0, F=7, OPMASK=3, NOPROBE=1, CONCRETEKEYS=1, LRULER=1), sample_every=50)],
             "thorough": [H("HarnessC12a", b(N=3, PRE=0, F=5), sample_every=1000), H("HarnessC12a", b(N=2, PRE=1, F=3), sample_every=1000), H("HarnessC12a", b(N=3, PRE=1, F=4), sample_every=3000)],
         },
         "must_reach": ["C12.contents-unchanged", "C12.size-unchanged", "C12.retry-result", "C12.contents-after-retry"],
@@ -161,7 +166,7 @@ PROPERTIES = {
             "quick": [H("HarnessC13a", b(N=3, B=1, RELOAD=1))] + [H("HarnessC13a", b(N=20, B=1, RELOAD=1, ASC=1, Lmax=4, LRULER=1, CONCRETEKEYS=1), sample_every=10, max_steps=30000000)],
             "thorough": [H("HarnessC13a", b(N=3, B=2, RELOAD=1), sample_every=200), H("HarnessC13a", b(N=3, B=1, RELOAD=0)), H("HarnessC13a", b(N=4, B=1, RELOAD=1), sample_every=200)],
         },
-        "must_reach": ["C13.written-is-reachable", "C13.rewrite-only-in-range", "C13.write-count", "C13.clean-implies-unchanged"],
+        "must_reach": ["C13.written-is-reachable", "C13.rewrite-only-in-range", "C13.write-count", "C13.clean-implies-unchanged", "C13.clone-clean-implies-unchanged"],
         "bounds_statement": "V0 = N arbitrary inserts, persisted (re-loaded or not), then B symbolic modifications, then the second persist's Store log",
         "assumptions": COMMON_ASSUMPTIONS,
     },
